@@ -420,3 +420,53 @@ func vxH12Retry() {
 	}
 	vxReach("done")
 }
+
+// H12.twice: two valid Tversions on one connection, each asking for any of the two dialects with any msize: each
+// negotiation follows the rule on its own terms -- the dialect is .u iff that Tversion asked for it and the server
+// speaks it (a session that was plain 9P2000 can be renegotiated to 9P2000.u), msize is the minimum of what the
+// client asks and what the connection has.
+func vxH12Twice() {
+	k := vxNewKit(false, false, 8192, true)
+	k.srv.Dotu = vxBool("srv.dotu")
+	conn := k.conn
+	conn.Dotu = k.srv.Dotu
+	ask := func(name string) (bool, uint32, *Fcall) {
+		u := vxBool(name + ".asks.u")
+		ms := vxU32(name + ".msize")
+		vxAssume(ms >= IOHDRSZ)
+		v := "9P2000"
+		if u {
+			v = "9P2000.u"
+		}
+		tc := &Fcall{Type: Tversion, Tag: NOTAG, Fid: NOFID, Afid: NOFID, Newfid: NOFID, Msize: ms, Version: v}
+		k.newReq(conn, tc, 256).Process()
+		rs := k.replies(conn)
+		vxAssert(len(rs) == 1 && rs[0].Rc.Type == Rversion, name+"-answered-with-Rversion")
+		if len(rs) != 1 || rs[0].Rc.Type != Rversion {
+			return u, ms, nil
+		}
+		return u, ms, rs[0].Rc
+	}
+	_, m1, r1 := ask("first")
+	if r1 == nil {
+		return
+	}
+	want1 := uint32(8192)
+	if m1 < want1 {
+		want1 = m1
+	}
+	vxAssert(r1.Msize == want1, "first-negotiates-min(client,server)")
+	u2, m2, r2 := ask("second")
+	if r2 == nil {
+		return
+	}
+	wantU := vxAll(u2, k.srv.Dotu)
+	wantV := "9P2000"
+	if wantU {
+		wantV = "9P2000.u"
+	}
+	vxAssert(r2.Version == wantV, "second-negotiation-dialect-is-.u-iff-both-sides-ask-for-it-now")
+	vxAssert(conn.Dotu == wantU, "connection-dialect-follows-the-second-negotiation")
+	vxAssert(r2.Msize <= m2 && r2.Msize <= 8192 && r2.Msize >= IOHDRSZ, "second-msize-within-both-limits")
+	vxReach("done")
+}
